@@ -42,6 +42,9 @@ type Case struct {
 	Workers [][]Op `json:"workers,omitempty"`
 	CloseAt int    `json:"close_at,omitempty"` // concurrent: shutdown after this many feeder frames
 	ByPeer  bool   `json:"by_peer,omitempty"`
+	// CloseErr: the stream's Close reports an error (the connection was already
+	// torn down underneath): handlers must be closed all the same
+	CloseErr bool `json:"close_err,omitempty"`
 }
 
 func genOp(t *rapid.T, allowShutdown bool) Op {
@@ -68,6 +71,7 @@ func genOp(t *rapid.T, allowShutdown bool) Op {
 func genSequential(t *rapid.T) Case {
 	n := rapid.IntRange(3, 40).Draw(t, "n")
 	var c Case
+	c.CloseErr = rapid.IntRange(0, 3).Draw(t, "closeerr") == 0
 	for i := 0; i < n; i++ {
 		op := genOp(t, i > 8)
 		c.Ops = append(c.Ops, op)
@@ -96,6 +100,7 @@ func genConcurrent(t *rapid.T) Case {
 	}
 	c.CloseAt = rapid.IntRange(0, 40).Draw(t, "closeat")
 	c.ByPeer = rapid.Bool().Draw(t, "bypeer")
+	c.CloseErr = rapid.IntRange(0, 3).Draw(t, "closeerr") == 0
 	return c
 }
 
@@ -237,6 +242,7 @@ func checkSequential(c Case) (err error) {
 		}
 	}()
 	s := hio.NewScriptStream(nil)
+	s.CloseErr = c.CloseErr
 	e := qnet.NewEndPoint(s)
 	var hs []*handler
 	live := map[int]*handler{} // model: id -> handler
@@ -419,6 +425,7 @@ func checkConcurrent(c Case) (err error) {
 	defer vt.JournalDone(prop, "TestConcurrent")
 	s := hio.NewScriptStream(nil)
 	s.YieldEvery = 3
+	s.CloseErr = c.CloseErr
 	e := qnet.NewEndPoint(s)
 	var mu sync.Mutex
 	var all []*handler
